@@ -780,6 +780,13 @@ func (e *Env) callExpr(ex *ast.CallExpr) (SVal, error) {
 			}
 		}
 		return mkInt(fmt.Sprint(n)), nil
+	case "newobject":
+		// newobject(x): x is the address of an object this very execution allocated (a constructor hands out a new object per call)
+		v, err := e.eval(ex.Args[0])
+		if err != nil {
+			return SVal{}, err
+		}
+		return mkBool(boolLit(v.K == KLoc && strings.HasPrefix(v.Loc, "new#"))), nil
 	case "called":
 		pat := e.resolveEventName(argStr(0))
 		for _, ev := range e.Events {
@@ -1223,6 +1230,15 @@ func (e *Env) traceMatch(pats []ast.Expr) (SVal, error) {
 			evs = append(evs, ev)
 		}
 	}
+	if os.Getenv("ROVC_DEBUG") != "" {
+		for _, ev := range e.Events {
+			fmt.Fprintf(os.Stderr, "TRACE-EVENT %s tracked=%v", ev.Name, e.Track == nil || e.Track(ev.Name))
+			for _, a := range ev.Args {
+				fmt.Fprintf(os.Stderr, " [%v %s %s]", a.K, a.Loc, a.T)
+			}
+			fmt.Fprintln(os.Stderr)
+		}
+	}
 	if len(evs) != len(pats) {
 		return mkBool("false"), nil
 	}
@@ -1302,6 +1318,16 @@ func (e *Env) matchEvent(p ast.Expr, ev Event) (string, error) {
 			}
 			want := "(" + smtName(sanitize("ctx_WithValue")) + " " + e.X.termOf(e.St, base) + " "
 			cs = append(cs, boolLit(ev.Args[i].K == KU && strings.HasPrefix(ev.Args[i].T, want)))
+			continue
+		}
+		if fc, ok := a.(*ast.CallExpr); ok && exprString(fc.Fun) == "addr" && len(fc.Args) == 1 {
+			// addr(x): the argument is the address of the local cell x of the function under contract
+			nm := exprString(fc.Args[0])
+			if e.Idents != nil && !e.Idents[nm] {
+				return "", fmt.Errorf("unknown identifier %s (a cell named by addr)", nm)
+			}
+			got := ev.Args[i]
+			cs = append(cs, boolLit(got.K == KLoc && newPrefixRe.ReplaceAllString(got.Loc, "") == nm))
 			continue
 		}
 		if fc, ok := a.(*ast.CallExpr); ok && exprString(fc.Fun) == "fields" {
